@@ -286,6 +286,8 @@ pub struct VringMutex<M: GuestAddressSpace = GuestMemoryAtomic<GuestMemoryMmap>>
 impl<M: GuestAddressSpace> VringMutex<M> {
     /// Get a mutable guard to the underlying raw `VringState` object.
     fn lock(&self) -> MutexGuard<'_, VringState<M>> {
+        #[cfg(feature = "verif-hooks")]
+        crate::verif::ring_lock_point("vring_mutex", &|| self.state.try_lock().is_ok());
         self.state.lock().unwrap()
     }
 }
@@ -306,6 +308,8 @@ impl<M: 'static + GuestAddressSpace> VringT<M> for VringMutex<M> {
     }
 
     fn get_ref(&self) -> <Self as VringStateGuard<'_, M>>::G {
+        #[cfg(feature = "verif-hooks")]
+        crate::verif::ring_lock_point("vring_mutex", &|| self.state.try_lock().is_ok());
         self.state.lock().unwrap()
     }
 
@@ -401,6 +405,8 @@ pub struct VringRwLock<M: GuestAddressSpace = GuestMemoryAtomic<GuestMemoryMmap>
 impl<M: GuestAddressSpace> VringRwLock<M> {
     /// Get a mutable guard to the underlying raw `VringState` object.
     fn write_lock(&self) -> RwLockWriteGuard<'_, VringState<M>> {
+        #[cfg(feature = "verif-hooks")]
+        crate::verif::ring_lock_point("vring_rwlock_write", &|| self.state.try_write().is_ok());
         self.state.write().unwrap()
     }
 }
@@ -421,6 +427,8 @@ impl<M: 'static + GuestAddressSpace> VringT<M> for VringRwLock<M> {
     }
 
     fn get_ref(&self) -> <Self as VringStateGuard<'_, M>>::G {
+        #[cfg(feature = "verif-hooks")]
+        crate::verif::ring_lock_point("vring_rwlock_read", &|| self.state.try_read().is_ok());
         self.state.read().unwrap()
     }
 
